@@ -29,6 +29,17 @@ ObservedIteration(C, coords, fl, it) ==
   /\ ExactlyOnce(it, C)
   /\ \A k \in 1..Len(it) : fl[Pos(coords, it[k])] = k - 1          \* k-th visited has observed flat index k-1
 
+\* every way of writing the loop (random extents are non-empty)
+WalksOK(d, o) ==
+  LET b == ItBegin(d)  e == ItEnd(d)  n == TotalOf(d) IN
+  /\ o.walk_range_for = WalkFor(b, e) /\ o.walk_for_pre = WalkFor(b, e) /\ o.walk_std_for_each = WalkFor(b, e)
+  /\ o.walk_for_post = WalkForPost(b, e)
+  /\ o.walk_while_pre = WalkWhilePre(b, e) /\ o.walk_do_while_pre = WalkDoWhile(b, e) /\ o.walk_deref_preinc = WalkDerefPre(b, n - 1)
+  /\ o.preinc_equals_it = PreIncEqualsIt(b, n) /\ o.preinc_value_index = PreIncValueIndex(b, n)
+  /\ o.begin_is_end = ItEq(b, e) /\ o.begin_ne_end = ItNe(b, e)
+  \* stated on the observations: each complete style visits every coordinate exactly once, the ++it-first styles all but the first
+  /\ ExactlyOnce(o.walk_do_while_pre, Range(o.iter)) /\ o.walk_while_pre = Tail(o.iter) /\ o.walk_deref_preinc = Tail(o.iter)
+
 Seq2OK(a, o) ==
   LET d == a.d IN
   /\ o.total = Total2(d) /\ o.dims = d
@@ -38,6 +49,7 @@ Seq2OK(a, o) ==
   /\ \A k \in 1..Len(a.coords) : o.flatten[k] = Flatten2(d, a.coords[k])
   /\ \A k \in 1..Len(a.idxs) : o.reshape[k] = Reshape2(d, a.idxs[k])
   /\ o.iter = IterSeq2(d)
+  /\ WalksOK(d, o)
 Seq3OK(a, o) ==
   LET d == a.d IN
   /\ o.total = Total3(d) /\ o.dims = d
@@ -47,6 +59,7 @@ Seq3OK(a, o) ==
   /\ \A k \in 1..Len(a.coords) : o.flatten[k] = Flatten3(d, a.coords[k])
   /\ \A k \in 1..Len(a.idxs) : o.reshape[k] = Reshape3(d, a.idxs[k])
   /\ o.iter = IterSeq3(d)
+  /\ WalksOK(d, o)
 Arr3OK(a, o) ==
   LET d == a.d IN
   /\ o.product = LongProduct(d)
